@@ -9,14 +9,15 @@ from urllib.parse import urljoin, urlparse
 from urllib.request import url2pathname
 
 from extract import fetch_sites
-from harness import c20_doc, docs
+from harness import c20_bg, c20_doc, c20_svg, docs
 from harness import c20_res as R
 from harness.c20_res import Spec, enc
 from vlib import sx
 from vlib.framework import PropCheck
 
 IMAGE_NAMES = ['png', 'png_rgba', 'png_l', 'png_la', 'png_p', 'png_p_transp', 'png_1', 'png_i', 'png_exif', 'jpeg',
-               'jpeg_l', 'jpeg_cmyk', 'jpeg_exif6', 'jpeg_exif1', 'gif', 'bmp', 'tiff', 'webp', 'svg', 'mpo']
+               'jpeg_l', 'jpeg_cmyk', 'jpeg_exif6', 'jpeg_exif1', 'gif', 'bmp', 'tiff', 'webp', 'svg', 'mpo',
+               'tiff_cmyk', 'tiff_f']     # the last two: Pillow opens them but cannot write them as PNG
 BAD_IMAGE_NAMES = ['svg_import', 'xhtml', 'html', 'css', 'empty', 'garbage', 'png_cut8', 'png_cut20', 'png_cut40',
                    'png_cut_tail', 'jpeg_cut30', 'jpeg_cut_half', 'svg_cut', 'otf']
 FONT_NAMES = ['otf', 'otf', 'woff', 'woff2', 'otf_cut', 'woff_bad', 'woff2_bad', 'wof_other', 'empty', 'garbage',
@@ -43,6 +44,25 @@ REDIRECTS = [None, None, None, 'file:///tmp/c20-named/a.png', 'http://cdn.test/r
 
 def orient_sx(o):
     return o if isinstance(o, str) else [o[0], o[1]]
+
+
+# (optimize_images, jpeg_quality, dpi): the options that get_image_from_uri / RasterImage read
+OPTION_SETS = [(False, None, None)] * 5 + [(True, None, None), (False, 60, None), (True, 60, None), (False, None, 96),
+                                          (False, 85, 300), (True, None, 300)]
+
+
+def opts_sx(opts):
+    return [opts[0], opts[1], opts[2]]
+
+
+def real_options(opts):
+    from weasyprint import DEFAULT_OPTIONS
+    return dict(DEFAULT_OPTIONS, optimize_images=opts[0], jpeg_quality=opts[1], dpi=opts[2])
+
+
+def cache_key(url, orient, opts):
+    """The cache key the property speaks of: one entry per (URL, orientation, image options)."""
+    return f'{url} {orient} {opts[0]} {opts[1]} {opts[2]}'
 
 
 def show_img(image, spec, saves_before, saves_after, original):
@@ -197,23 +217,31 @@ def matcher_rules(css):
 class C20(PropCheck):
     id = 'C20'
     extractors = (fetch_sites.generate,)
-    modules = ('WpModel.Props.C20', 'WpModel.Props.C20Url', 'WpModel.Props.C20Trace', 'WpModel.Props.C20Absent', 'WpModel.Witness.C20')
+    modules = ('WpModel.Props.C20', 'WpModel.Props.C20Url', 'WpModel.Props.C20Trace', 'WpModel.Props.C20Absent', 'WpModel.Props.C20Bg',
+               'WpModel.Props.C20Svg', 'WpModel.Witness.C20')
     trusted_base = (
         'modelled, not verified: urls.fetch, images.get_image_from_uri / RasterImage.__init__ (data source), '
-        'html.handle_img/embed/object, css find_stylesheets + @import/@media/@font-face branches of preprocess_stylesheet, '
-        'fonts.add_font_face src loop, pdf.anchors.write_pdf_attachment / add_annotations (Model/Resources.lean)',
-        'verdicts of third-party parsers on a byte string (ElementTree, Pillow, fontTools, fontconfig) are parameters of the '
-        'model, obtained by the harness from those libraries directly',
+        'html.handle_img/embed/object/svg, css find_stylesheets + @import/@media/@font-face branches of preprocess_stylesheet, '
+        'fonts.add_font_face src loop, pdf.anchors.write_pdf_attachment / add_annotations (Model/Resources.lean), '
+        'layout.background.layout_box_backgrounds (image list and per-layer zip), document.DiskCache under get_image_from_uri '
+        '(Model/ResourcesBg.lean), images.SVGImage.draw with its _drawing flag + svg.images.image at any depth '
+        '(Model/ResourcesSvg.lean)',
+        'verdicts of third-party parsers on a byte string (ElementTree, Pillow open / PNG save, fontTools, fontconfig) are '
+        'parameters of the model, obtained by the harness from those libraries directly',
         'which files / sockets the process opens is runtime behaviour: observed with sys.addaudithook on generated documents, '
-        'not proved; the AST scan of open()/read_bytes()/urlopen() call sites (Gen/FetchSites) is syntactic',
+        'not proved; the AST scan of open()/read_bytes()/urlopen() call sites and of the except clauses of the loaders '
+        '(Gen/FetchSites) is syntactic',
     )
     assumptions = (
         'URLs are ASCII; percent escapes below %80 only (iri_to_uri is then the identity, url2pathname = unquote)',
         'stylesheet responses carry no redirected_url (the base of a relative @import is then the stylesheet URL, resolved '
         'by urllib.urljoin, which is an oracle of the harness)',
-        'fetches made while an SVG image is drawn are modelled one level deep (<image>, external <use>); an SVG image '
-        'referenced from inside an SVG image is a leaf (its own references are not followed: see finding svg-self-reference-hang)',
-        'RasterImage.__init__ does not raise on data Pillow can open (ImageFile.LOAD_TRUNCATED_IMAGES)',
+        'fetches made while an SVG image (referenced by URL, or an inline <svg> element) is drawn are followed to any depth and '
+        'through any cycle (ResourcesSvg.drawObject, used by ResourcesDoc.run); an SVG image used as a CSS image (background, '
+        'list-style, content) is generated without references of its own; an external <use> is a direct call whose result is unused',
+        'RasterImage.__init__ raises on data Pillow can open only in pillow_image.save(format=PNG) (unwritable mode): the '
+        'verdict of that call is a parameter (Pil.pngWritable); JPEG re-encoding does not raise',
+        'LazyImage byte entries of the cache (keys md5-source-dpi) never collide with image keys and are not modelled',
         'the fetcher returns None or a dict; file objects implement read() and close()',
     )
 
@@ -228,10 +256,13 @@ class C20(PropCheck):
         self.sec_url_resolution(run)
         self.sec_raster(run)
         self.sec_images(run)
+        c20_bg.disk_section(run, self)
         self.sec_handle(run)
         self.sec_css(run)
         self.sec_fonts(run)
         self.sec_attachments(run)
+        c20_bg.section(run)
+        c20_svg.section(run)
         c20_doc.section(run)
         self.sec_traces(run)
         self.branch_histogram(run, store)
@@ -243,7 +274,7 @@ class C20(PropCheck):
                                      'file-obj-close-fails', 'file-obj') for b in ('body-returns', 'body-raises')] +
         ['img:cache-hit-image', 'img:cache-hit-failure', 'img:fetcher-raises', 'img:not-a-dict-escapes',
          'img:read-error-escapes', 'img:no-string-no-file-escapes', 'img:svg-by-mime', 'img:error-svg-mime',
-         'img:svg-last-chance', 'img:error-undecodable', 'img:raster-JPEG-original-bytes', 'img:raster-JPEG-reencoded',
+         'img:svg-last-chance', 'img:error-undecodable', 'img:error-reencoding-fails', 'img:raster-JPEG-original-bytes', 'img:raster-JPEG-reencoded',
          'img:raster-JPEG-lazy-local', 'img:raster-PNG-original-bytes', 'img:raster-PNG-reencoded', 'img:raster-PNG-lazy-local'] +
         ['font:exhausted-warning', 'font:broken-url', 'font:internal', 'font:local-name-mismatch', 'font:url-fetch-fails',
          'font:local-fetch-fails', 'font:woff-decode-fails', 'font:url-fetch-installed', 'font:local-fetch-installed',
@@ -261,7 +292,7 @@ class C20(PropCheck):
          'join:fragment-only', 'join:query-only', 'join:absolute-path', 'join:merge-with-dotdot', 'join:merge'] +
         ['doc:render-completes', 'doc:render-escapes', 'doc:write-completes', 'doc:write-local-file-missing',
          'doc:write-escapes', 'doc:local-file-read', 'svg:external-use-direct-call', 'svg:image-loaded', 'svg:image-none',
-         'svg:image-escapes-swallowed', 'svg:image-no-href-none'])
+         'svg:image-escapes-swallowed', 'svg:image-no-href-skipped'])
     # font:local-no-match cannot be produced: FcFontMatch always returns the closest font (the harness passes found=true)
     # img:read-error-caught-class: a read() raising URLFetchingError / ImageLoadingError itself (generated rarely)
 
@@ -291,7 +322,7 @@ class C20(PropCheck):
         import collections
         from vlib import lean
         hit = collections.Counter()
-        commands = ('fetch', 'images', 'fonts', 'css', 'sheet', 'attach', 'urljoin', 'doc')
+        commands = ('fetch', 'images', 'fonts', 'css', 'sheet', 'attach', 'urljoin', 'doc')      # (bg / imagesdisk: no tags)
         by_name = {sec.name: sec for sec in run.sections}
         for name, lines in store.items():
             wanted = [line for line in lines if line.split(' ', 1)[0] in commands]
@@ -462,12 +493,14 @@ class C20(PropCheck):
         from weasyprint import DEFAULT_OPTIONS
         from weasyprint.images import RasterImage
         sec = run.section('raster-source', 'RasterImage.__init__ on real Pillow images: format and data source (original bytes '
-                          'in memory / re-encoded / LazyLocalImage path); non-trivial = a filename is given')
+                          'in memory / re-encoded / LazyLocalImage path) or the exception of Pillow\'s save; non-trivial = a filename is given, or '
+                          'Pillow cannot write the mode as PNG')
         contents = [c for c in R.bank().values() if c.pil is not None]
         filenames = [None, '', '/tmp/c20-named/a.png']
         combos = list(itertools.product(contents, ORIENTATIONS, filenames, (False, True), (None, 60)))
         if not run.thorough:
-            combos = run.rng.sample(combos, 500)
+            unwritable = [combo for combo in combos if not combo[0].pil[4]]
+            combos = run.rng.sample(combos, 470) + run.rng.sample(unwritable, min(30, len(unwritable)))
         for content, orient, filename, optimize, quality in combos:
             options = dict(DEFAULT_OPTIONS, optimize_images=optimize, jpeg_quality=quality)
 
@@ -476,11 +509,11 @@ class C20(PropCheck):
                 with R.counting_saves() as saves:
                     image = RasterImage(pillow, 'id', content.data, filename, {}, orient, options)
                 return f'{image.format} {show_src(image, saves["n"] > 0, content.data)}'
-            pil = [enc(content.pil[0]), enc(content.pil[1]), content.pil[2], content.pil[3]]
-            sec.add(sx.line('raster', pil, orient_sx(orient), enc(filename), [optimize, quality is not None]),
+            sec.add(sx.line('raster', R.pil_sx(content.pil), orient_sx(orient), enc(filename), opts_sx((optimize, quality, None))),
                     outcome_class(real), meta={'content': content.name, 'orient': orient, 'filename': filename,
                                                'optimize': optimize, 'quality': quality},
-                    nontrivial=bool(filename), tags=[content.pil[0], 'file' if filename else 'nofile'])
+                    nontrivial=bool(filename) or not content.pil[4],
+                    tags=[content.pil[0], 'file' if filename else 'nofile'] + ([] if content.pil[4] else ['png-unwritable']))
 
     # get_image_from_uri ----------------------------------------------------------------------
     def sec_images(self, run):
@@ -503,50 +536,55 @@ class C20(PropCheck):
         for url in pool:
             table[url] = R.random_spec(rng, image_names(rng), redirects=REDIRECTS)
         reqs = []
+        # one cache shared by calls with the same options (one render), or with two or three option sets (renders sharing a cache)
+        option_pool = [rng.choice(OPTION_SETS)] if rng.random() < 0.6 else [rng.choice(OPTION_SETS) for _ in range(rng.choice([2, 3]))]
         for _ in range(rng.randrange(1, 13)):
             url = rng.choice(pool) if rng.random() < 0.95 else 'http://img.test/unknown.png'
             reqs.append((url, rng.choice(ORIENTATIONS[:4] if rng.random() < 0.8 else ORIENTATIONS),
-                         rng.choice([None, None, None, '', 'image/*', 'image/svg+xml', 'image/png'])))
-        return {'table': table, 'reqs': reqs, 'optimize': rng.random() < 0.3, 'quality': rng.random() < 0.2}
+                         rng.choice([None, None, None, '', 'image/*', 'image/svg+xml', 'image/png']), rng.choice(option_pool)))
+        return {'table': table, 'reqs': reqs}
 
     @staticmethod
     def case_meta(case):
         return {'table': {u: s.json() for u, s in case['table'].items()},
-                'reqs': [[u, o, m] for u, o, m in case['reqs']], 'optimize': case['optimize'], 'quality': case['quality']}
+                'reqs': [[u, o, m, list(opts)] for u, o, m, opts in case['reqs']]}
 
     @staticmethod
     def case_from_meta(meta):
         return {'table': {u: Spec.from_json(j) for u, j in meta['table'].items()},
-                'reqs': [(u, o if isinstance(o, str) else tuple(o), m) for u, o, m in meta['reqs']],
-                'optimize': meta['optimize'], 'quality': meta['quality']}
+                'reqs': [(u, o if isinstance(o, str) else tuple(o), m, tuple(opts)) for u, o, m, opts in meta['reqs']]}
 
     @staticmethod
     def run_image_case(case):
-        from weasyprint import DEFAULT_OPTIONS
         from weasyprint.images import get_image_from_uri
-        options = dict(DEFAULT_OPTIONS, optimize_images=case['optimize'], jpeg_quality=60 if case['quality'] else None)
         recorder = R.Recorder(case['table'])
         cache = {}
         outs, shown = [], {}
         tags = set()
         failing = False
-        for url, orient, forced in case['reqs']:
+        if len({opts for _, _, _, opts in case['reqs']}) > 1:
+            tags.add('several-option-sets')
+        for url, orient, forced, opts in case['reqs']:
             spec = case['table'].get(url)
-            key = f'{url} {orient}'
+            key = cache_key(url, orient, opts)
             try:
                 with R.counting_saves() as saves:
-                    image = get_image_from_uri(cache, recorder, options, url, forced, None, orient)
-                if key not in shown:
-                    shown[key] = show_img(image, spec, 0, saves['n'], spec.content.data if image is not None else None)
-                text = shown[key]
+                    image = get_image_from_uri(cache, recorder, real_options(opts), url, forced, None, orient)
             except Exception as exc:  # noqa: BLE001
                 text = f'err:{type(exc).__name__}'
+            else:
+                if key not in shown:
+                    try:
+                        shown[key] = show_img(image, spec, 0, saves['n'], spec.content.data if image is not None else None)
+                    except AssertionError:
+                        shown[key] = 'raster:foreign-bytes'     # neither the fetcher's bytes nor re-encoded in this call
+                text = shown[key]
             tags.add(text.split(':')[0] if not text.startswith('err') else 'escapes')
             failing = failing or text == 'none' or text.startswith('err')
             outs.append(recorder.take() + text)
         cache_text = ','.join(f'{enc(k)}={shown[k]}' for k in cache if k in shown)
-        line = sx.line('images', [case['optimize'], case['quality']], recorder.sx(),
-                       [[enc(u), orient_sx(o), enc(m)] for u, o, m in case['reqs']])
+        line = sx.line('images', recorder.sx(),
+                       [[enc(u), orient_sx(o), enc(m), opts_sx(opts)] for u, o, m, opts in case['reqs']])
         return line, ';'.join(outs) + f' cache=[{cache_text}]', failing, sorted(tags)
 
     # handle_img / handle_embed / handle_object -------------------------------------------------
@@ -839,8 +877,12 @@ class C20(PropCheck):
                 if meta['body'] is None and spec['redirected'] is None and f'red={enc(meta["url"])}' not in outcome:
                     return f'redirected_url does not default to the requested URL: {outcome}'
             return None
-        if sec == 'image-sequences':
+        if sec in ('image-sequences', 'image-sequences-disk-cache'):
             return self.judge_images(self.case_from_meta(meta['case']), impl)
+        if sec == 'background-layers':
+            return c20_bg.judge(meta)
+        if sec == 'svg-nesting':
+            return c20_svg.judge(d)
         if sec == 'html-handlers':
             expected_failed = {'img': [f'[alt={enc(meta["alt"])}]' if meta['alt'] else '[]'], 'embed': ['[]'],
                                'object': ['[fallback]']}[meta['which']]
@@ -883,7 +925,7 @@ class C20(PropCheck):
                 return ('RasterImage re-encodes the image (optimize_images / rotation) but keeps a LazyLocalImage: the bytes '
                         'embedded are re-read from the local path, not those computed from the fetched data')
             return None
-        if sec == 'documents':
+        if sec in ('documents', 'kind-x-failure-matrix'):
             return self.judge_document(meta, impl)
         if sec == 'trace-checker':
             if 'shape=false' in d['model']:
@@ -898,16 +940,19 @@ class C20(PropCheck):
     def judge_images(case, impl):
         outs = impl.rsplit(' cache=', 1)[0].split(';')
         fetched = {}
-        for (url, orient, forced), out in zip(case['reqs'], outs):
+        for (url, orient, forced, opts), out in zip(case['reqs'], outs):
             events, _, result = out.partition(']')
             spec = case['table'].get(url)
             escaping = spec is not None and spec.escaping
-            key = f'{url} {orient}'
+            key = cache_key(url, orient, opts)
             if result.startswith('err:') and not escaping:
                 return (f'get_image_from_uri raised {result[4:]} for {url!r} whose fetch '
                         f'{"raises" if spec is None or spec.kind == "raises" else "returns bytes"} (must return an image or None)')
+            if result == 'raster:foreign-bytes':
+                return (f'{url!r}: the image returned holds bytes that are neither the bytes the fetcher returned for it nor '
+                        f're-encoded from them in this call (options {opts}): an entry cached under other image options')
             if 'call=' in events and fetched.get(key):
-                return f'{url!r} fetched again although (URL, orientation) was already loaded or failed'
+                return f'{url!r} fetched again although (URL, orientation, image options) was already loaded or failed'
             if not result.startswith('err:'):
                 fetched[key] = True
             location = (spec.redirected if (spec is not None and spec.kind == 'resp' and spec.redirected) else url)
@@ -957,14 +1002,24 @@ class C20(PropCheck):
             case = self.case_from_meta(meta['case'])
             _, out, _, _ = self.run_image_case(case)
             return self.judge_images(case, out)
+        if sec == 'image-sequences-disk-cache':
+            case = self.case_from_meta(meta['case'])
+            _, out, _, _ = c20_bg.run_disk_case(self, case)
+            return self.judge_images(case, out)
+        if sec == 'background-layers':
+            return c20_bg.judge(meta)
+        if sec == 'svg-nesting':
+            return c20_svg.rejudge(meta)
         if sec == 'fetch':
             from weasyprint.urls import fetch
             body = meta.get('body_json')
             body_exc = None if body is None else Spec.from_json({'kind': 'raises', 'exc': body}).exc
             out = self.real_fetch(fetch, Spec.from_json(meta['spec']), meta['url'], body_exc)
             return self.judge({**inp, 'impl': out})
-        if sec == 'documents' and meta.get('replay'):
+        if sec in ('documents', 'kind-x-failure-matrix') and meta.get('replay'):
             return c20_doc.replay({'input': meta['replay']})
+        if sec in ('documents', 'kind-x-failure-matrix') and meta.get('absent'):
+            return c20_doc.absent_check(meta['absent'])
         if sec == 'font-face' and 'table' in meta:
             from weasyprint.text.fonts import FontConfiguration
             config = FontConfiguration()
@@ -1092,14 +1147,20 @@ MANIFEST = {
             '<img>, <embed>, <object>, CSS image, <link>, @import, font src entry or attachment leaves exactly what the document '
             'without it leaves — for images through the shared cache, for every later reference; the whole pipeline completes and '
             'opens no local file on every document whose fetches are absorbed; the bytes embedded at write time are the '
-            'fetcher\'s unless the reported location is a file: URL. Call sites that open files, URLs or sockets, and call sites '
-            'of the fetcher, are regenerated from the source each run and checked against whitelists.',
+            'fetcher\'s unless the reported location is a file: URL; every layer of a multi-layer background keeps its own '
+            'size / position / repeat / origin / clip / attachment and a url() layer that fails gives the layers of the same '
+            'declaration with none in its place; drawing SVG images that include SVG images terminates for every graph of '
+            'references (the _drawing flag bounds the depth by the number of image keys), its trace has the fetch shape and asks '
+            'only for hrefs of the SVGs involved; get_image_from_uri on a DiskCache (cache option as a folder) does what it does '
+            'on a dict, a failed load stays a cached None. Call sites that open files, URLs or sockets, call sites of the '
+            'fetcher, and the except clauses of every loader are regenerated from the source each run and checked against '
+            'whitelists.',
     'note': 'Partial: which files and sockets the process opens is runtime behaviour, observed by an audit hook on generated '
             'documents only. Theorems named _partial carry the hypothesis that excludes known findings, each with a Lean witness '
             'replayed on the implementation every run: LazyLocalImage re-reads file: URLs at write time (F19); a file object whose '
             'read() raises escapes from image / stylesheet / attachment loading; well-formed non-SVG XML is accepted as an image; '
-            'an SVG <image> without href hands None to the fetcher; an external SVG <use> bypasses fetch() and never closes the '
-            'file object; an @import cycle ends in RecursionError; an SVG image that references itself twice never finishes '
-            'drawing. Third-party parsers (Pillow, ElementTree, fontTools, fontconfig, tinycss2) are parameters of the model; '
+            'an external SVG <use> bypasses fetch() and never closes the file object; an @import cycle ends in '
+            'RecursionError. Repaired and kept as regression inputs: SVG <image> without href (799e002), self-referencing SVG '
+            '(9598d29), image Pillow cannot re-encode (d7dc388), font data then local() (829d022). Third-party parsers (Pillow, ElementTree, fontTools, fontconfig, tinycss2) are parameters of the model; '
             'urllib.parse.urljoin is modelled (ASCII authority without brackets).',
 }
